@@ -45,7 +45,8 @@ Fixpoint miss_pt (bound : list ident) (e : env) (p : pt) : bool :=
   | PMap m b => existsb (fun xe => miss_e bound e (snd xe)) m || miss_pt (map fst m ++ bound) e b
   | PMulti d subs => match d with Some x => miss_e bound e x | None => false end || existsb (miss_pt bound e) subs
   | PArith l r => miss_pt bound e l || miss_pt bound e r
-  | PWrap b | PRev b => miss_pt bound e b
+  | PWrap b | PRev b | PSingle b => miss_pt bound e b
+  | PConstr cs b => existsb (fun lr => miss_e bound e (fst lr) || miss_e bound e (snd lr)) cs || miss_pt bound e b
   end.
 
 Definition sym_matches (p : pt) (e : env) (sym_impl : option Q) : bool :=
@@ -67,7 +68,7 @@ Definition check_corr (c : case) : bool :=
                   end) with
       | None => true
       | Some _ =>
-      match cp p e with
+      match cp real p e with
       | Inexact => true
       | Err k => match prog with IErr k' => errclass_eqb (class_of k) k' | _ => false end
       | Ok kids =>
@@ -89,7 +90,7 @@ Definition check_corr (c : case) : bool :=
   end.
 
 Definition excluded (c : case) : bool :=     (* float arithmetic takes part in a duration of the instantiated program *)
-  match c with CTpl p e _ _ => match cp p e with Inexact => true | _ => false end | _ => false end.
+  match c with CTpl p e _ _ => match cp real p e with Inexact => true | _ => false end | _ => false end.
 
 Fixpoint arith_seq_from (k : nat) (a s : Z) (l : list Z) : bool :=
   match l with
